@@ -338,16 +338,19 @@ void mux_link(PhysStream &ps, std::shared_ptr<Link> l, const MuxPolicy &mp, cons
     if (foreign->size() > 1) w.section(*foreign, 1, foreign->size(), fp, false, true);
     theirs = std::move(w.pages);
   }
+  std::vector<uint8_t> second_bos;
+  if (!theirs.empty() && mp.foreign_mode == 3) { Pkt p; p.data.assign(20, 0x33); memcpy(p.data.data(), "second!", 7); p.granule = 0; std::vector<Pkt> one{p}; PageW w; w.serial = foreign_serial + 1; MuxPolicy fp; fp.policy = 2; w.section(one, 0, 1, fp, true, true); second_bos = w.pages[0]; }
   size_t ti = 0;
   for (size_t i = 0; i < ours.size(); i++) {
     if (i == n_hdr_pages) ps.data_off.push_back((int64_t)ps.bytes.size());
     bool lastp = (i + 1 == ours.size());
-    if (lastp) while (ti < theirs.size() && ti > 0) { ps.bytes.insert(ps.bytes.end(), theirs[ti].begin(), theirs[ti].end()); ti++; }
+    if (lastp && mp.foreign_mode == 1) while (ti < theirs.size() && ti > 0) { ps.bytes.insert(ps.bytes.end(), theirs[ti].begin(), theirs[ti].end()); ti++; }
     ps.bytes.insert(ps.bytes.end(), ours[i].begin(), ours[i].end());
-    if (i == 0 && !theirs.empty()) { ps.bytes.insert(ps.bytes.end(), theirs[0].begin(), theirs[0].end()); ti = 1; }
+    if (i == 0 && !theirs.empty()) { ps.bytes.insert(ps.bytes.end(), theirs[0].begin(), theirs[0].end()); ti = 1; ps.bytes.insert(ps.bytes.end(), second_bos.begin(), second_bos.end()); }
     else if (i >= n_hdr_pages && ti < theirs.size() && ti > 0 && (i % 2) == 0 && !lastp) { ps.bytes.insert(ps.bytes.end(), theirs[ti].begin(), theirs[ti].end()); ti++; }
   }
   if (ours.size() == n_hdr_pages) ps.data_off.push_back((int64_t)ps.bytes.size());
+  while (ti < theirs.size() && ti > 0) { ps.bytes.insert(ps.bytes.end(), theirs[ti].begin(), theirs[ti].end()); ti++; }   // foreign_mode 2/3: the other stream outlives ours
   ps.links.push_back(l); ps.serials.push_back(mp.serial);
   if (ps.link_off.empty()) ps.link_off.push_back(link_start); else ps.link_off.back() = link_start;
   ps.link_off.push_back((int64_t)ps.bytes.size());
